@@ -65,6 +65,31 @@ fn heavy_corpus() -> Vec<String> {
     v
 }
 
+/// C02 "roughly linear time": the same number of statements with and without a syntax error in each must not differ by more
+/// than a generous constant factor (a quadratic pass over the error list shows as 40x and more at this size). Fastest of three
+/// runs each, so that load on the machine cancels out; decides nothing below the factor.
+fn roughly_linear() -> Result<(), String> {
+    let n = 30000;
+    let ok: String = "local x = 1\n".repeat(n);
+    let bad: String = "x = = 1\n".repeat(n);
+    let time = |t: &str| -> f64 {
+        let mut best = f64::MAX;
+        for _ in 0..3 {
+            *CURRENT.lock().unwrap() = None;   // the hang watchdog is for the small inputs
+            let t0 = std::time::Instant::now();
+            let tree = LuaParser::parse(t, ParserConfig::default());
+            std::hint::black_box(tree.get_errors().len());
+            best = best.min(t0.elapsed().as_secs_f64());
+        }
+        best
+    };
+    let (t_ok, t_bad) = (time(&ok), time(&bad));
+    if t_bad > 25.0 * t_ok + 1.0 {
+        return Err(format!("[linear-time] {n} statements with one syntax error each take {t_bad:.2} s, {n} valid statements {t_ok:.2} s (factor {:.0}): parse time is not roughly linear in the input size", t_bad / t_ok.max(1e-9)));
+    }
+    Ok(())
+}
+
 fn hex(s: &str) -> String { s.bytes().map(|b| format!("{b:02x}")).collect() }
 fn unhex(h: &str) -> String {
     let bytes: Vec<u8> = (0..h.len() / 2).map(|i| u8::from_str_radix(&h[2 * i..2 * i + 2], 16).unwrap()).collect();
@@ -98,6 +123,7 @@ fn main() {
             for t in heavy_corpus() {
                 if let Err(e) = lossless(&t) { println!("FOUND hex={} {e}", hex(&t)); std::process::exit(1); }
             }
+            if let Err(e) = roughly_linear() { println!("FOUND {e}"); std::process::exit(1); }
             for _ in 0..n {
                 let mut t = String::new();
                 s ^= s << 13; s ^= s >> 7; s ^= s << 17;
